@@ -45,15 +45,21 @@ CONSTANTS Source,        \* "enum" | "file"
 \*                 parse_errors now designates the clean definition.  The superseded definition has no page: nothing of
 \*                 it is ever rendered, so it can only have build-phase problems
 \*          dup2   the same, the SECOND definition carries the problems (nothing is renamed after the report)
-ObjCfg == [shape : {"func", "class", "reexp", "dup", "dup2"}, fmt : {"rst", "epy"}, xref : BOOLEAN, field : BOOLEAN, nerr : 0..2, expr : BOOLEAN, regex : BOOLEAN]
+\*          inhF   the problems sit in the docstring of a METHOD that a subclass in another module overrides without a docstring
+\*          inhL   of its own: the text is rendered twice, for the method and for the override that inherits it, but it is one
+\*                 docstring: parse errors and unresolvable links are reported once, against the defining method (the heir
+\*                 renders silently), field problems once per rendering (FieldHandler runs for both objects).  The ORDER IN
+\*                 WHICH THE PAGES ARE WRITTEN is the dimension: inhF = the subclass's module comes first, inhL = last
+ObjCfg == [shape : {"func", "class", "reexp", "dup", "dup2", "inhF", "inhL"}, fmt : {"rst", "epy"}, xref : BOOLEAN, field : BOOLEAN, nerr : 0..2, expr : BOOLEAN, regex : BOOLEAN]
 \* a fatal epytext error turns the whole docstring into plain text: nothing else in it is markup any more
 Realisable(c) == /\ (c.fmt = "epy" => (c.nerr <= 1 /\ (c.nerr = 1 => ~c.xref /\ ~c.field)))
                  /\ (c.shape # "func" => ~c.expr /\ ~c.regex)
                  /\ (c.shape = "dup" => ~c.xref /\ ~c.field /\ c.nerr > 0)
+                 /\ (c.shape \in {"inhF", "inhL"} => c.fmt = "rst" /\ c.nerr = 0)
 Clean(c) == ~c.xref /\ ~c.field /\ c.nerr = 0 /\ ~c.expr /\ ~c.regex
 Menu == {c \in ObjCfg : c.shape = "func" /\ c.fmt = "rst" /\ ~c.xref /\ ~c.field /\ ~c.expr /\ ~c.regex /\ c.nerr <= 1}
 Events(o, c) == (IF c.xref THEN {[o |-> o, kind |-> "xref", n |-> 1]} ELSE {})
-           \cup (IF c.field THEN {[o |-> o, kind |-> "field", n |-> 1]} ELSE {})
+           \cup (IF c.field THEN {[o |-> o, kind |-> "field", n |-> IF c.shape \in {"inhF", "inhL"} THEN 2 ELSE 1]} ELSE {})
            \cup (IF c.nerr > 0 THEN {[o |-> o, kind |-> "parse", n |-> c.nerr]} ELSE {})
            \cup (IF c.expr THEN {[o |-> o, kind |-> "expr", n |-> 1]} ELSE {})
            \cup (IF c.regex THEN {[o |-> o, kind |-> "regex", n |-> 1]} ELSE {})
@@ -117,7 +123,7 @@ Meet(e) == /\ exit = 0 - 1 /\ Source = "enum" /\ e \in todo
            /\ todo' = todo \ {e}
            /\ met' = met \cup {e}
            /\ IF e.kind \in {"parse", "expr"} THEN ReportErrors(Section(e.kind), Name(e.o), e.o, e.n)
-              ELSE ReportN(e.o, 1) /\ UNCHANGED perr
+              ELSE ReportN(e.o, e.n) /\ UNCHANGED perr
            /\ UNCHANGED <<sumlines, moved, exit>>
 \* astbuilder: __all__ of the package re-exports the class: reparent() / a second definition supersedes the first:
 \* handleDuplicate().  Nothing is recorded anywhere about the old name.
